@@ -98,4 +98,5 @@ def main(argv=None):
 
 
 if __name__ == '__main__':
-    sys.exit(main())
+    from . import fatstack
+    sys.exit(fatstack.run(main))
